@@ -220,7 +220,7 @@ def finalize(check, violations, viol_count, coverage, t0, log=print):
     lines = []
     for v, k in listed:
         lines.append(f"KNOWN-FINDING: property={v['property']} {k.get('what', v['signature'])} [{v['signature']}] x{viol_count[v['signature']]}")
-    gate_budget = 25
+    gate_budget = int(os.environ.get("TFMC_MAX_GATE", "25"))
     for v, _ in new:
         path = findings.write_replay(v)
         if gate_budget > 0:
